@@ -1,4 +1,5 @@
 import Cicada.Spec.C14
+import Cicada.Lemmas.Interp
 /-!
 # C14 — scripts execute exactly the command sequence their block structure prescribes
 
@@ -13,9 +14,14 @@ Proved here:
 * `C14_first_true_arm` : in the reference semantics exactly the first arm whose condition succeeds runs, and
   no later condition is evaluated.
 * `C14_break_innermost` : `break` inside a loop body ends that loop only (the statement after the loop runs).
-Not yet a theorem (checked on every generated AST by the driver at run time, and against the implementation
-by the `srun` stream): `run_lines (render b) = semBlock b` for all blocks — the interpreter refinement and
-the PEG round trip.
+* `C14_interpreter_refines` : **the interpreter refines the structured semantics.**  For EVERY AST `b` (any nesting of
+  `if` / `else if` / `else`, `for`, `while`, `break`, `continue`), every pair tree that represents it (`RBlock`: rule
+  names and the trimmed texts of CMD / TEST / FOR_VAR pairs, nothing else), every `run_command_line` behaviour, every
+  state and every fuel: whatever `run_exp` returns is what `semBlock b` prescribes — same final state, same pending
+  `break` / `continue` (`Lemmas/Interp.lean`, mutual induction over the interpreter's fuel with fuel-monotonicity of the
+  semantics).  Hypotheses: `set -e` is off, and the lines are untouched by positional expansion.
+Not a theorem (checked against pest and against the implementation by the `ptree` and `srun` streams): that the
+pair tree pest builds for `render b` represents `b` — the PEG round trip.
 -/
 namespace Cicada.C14
 open Cicada Cicada.Locust
@@ -56,5 +62,49 @@ theorem C14_break_innermost {σ} (sem : Sem σ) (f : Nat) (v : Str) (w : Str) (w
     (hw : sem.words st [] = w :: ws) :
     semBlock sem (f + 4) (.cons (.for v [] (.cons .brk .nil)) after) inLoop st = semBlock sem (f + 3) after inLoop (sem.setVar st v w) := by
   simp [semBlock, semFor, hw, Outcome.bind]
+
+/-- **the interpreter refines the structured semantics** (see the header) -/
+theorem C14_interpreter_refines {σ} (sem : Sem σ) (args : List Str) (hE : ∀ s, sem.exitOnError s = false)
+    (b : Block) (ts : List PT) (hrep : RBlock args b ts) (f : Nat) (inLoop : Bool) (st : σ) (last : Option Int) (r : RunRes σ)
+    (hrun : runExp sem args f ts inLoop st last = .ok r) :
+    ∃ g fl, semBlock sem g b inLoop st = .ok (r.st, fl) ∧ FlagRel r fl :=
+  (good_all sem args hE f).blk b ts inLoop st last r hrep hrun
+
+/-- at the top level (`run_lines`: not inside a loop) nothing is pending afterwards: the script's final state is the
+semantics' final state -/
+theorem C14_script_refines {σ} (sem : Sem σ) (args : List Str) (hE : ∀ s, sem.exitOnError s = false)
+    (b : Block) (text : Str) (root : Str) (ts : List PT) (hparse : parseLines text = some (.node "EXP" root ts))
+    (hrep : RBlock args b ts) (f : Nat) (st : σ) (r : RunRes σ)
+    (hrun : runLines sem args f text st = .ok (some r)) :
+    ∃ g fl, semBlock sem g b false st = .ok (r.st, fl) := by
+  unfold runLines at hrun
+  simp only [hparse, PT.kids, Outcome.map] at hrun
+  obtain ⟨r', h1, h2⟩ := bind_ok hrun
+  simp only [Outcome.ok.injEq, Option.some.injEq] at h2
+  subst h2
+  obtain ⟨g, fl, hg, _⟩ := C14_interpreter_refines sem args hE b ts hrep f false st none r' h1
+  exact ⟨g, fl, hg⟩
+
+/-- the children of the top pair pest builds for the script of the example below -/
+def exTree : List PT :=
+  [.node "EXP_FOR" "for x in a b; do\nif t\nbreak\nelse\nc $x\nfi\ndone\n".toList
+    [.node "FOR_HEAD" "for x in a b; do\n".toList [.node "FOR_INIT" "x in a b; do\n".toList [.node "FOR_VAR" "x".toList [], .node "TEST" "a b".toList []]],
+     .node "EXP_BODY" "if t\nbreak\nelse\nc $x\nfi\n".toList
+      [.node "EXP_IF" "if t\nbreak\nelse\nc $x\nfi\n".toList
+        [.node "IF_IF_BR" "if t\nbreak\n".toList [.node "IF_HEAD" "if t\n".toList [.node "TEST" "t".toList []],
+                                                 .node "EXP_BODY" "break\n".toList [.node "CMD" "break\n".toList []]],
+         .node "IF_ELSE_BR" "else\nc $x\n".toList [.node "KW_ELSE" "else\n".toList [],
+                                                  .node "EXP_BODY" "c $x\n".toList [.node "CMD" "c $x\n".toList []]]]]],
+   .node "CMD" "z\n".toList []]
+
+/-- non-vacuity: `exTree` (what `parseLines` returns for `for x in a b; do / if t / break / else / c $x / fi / done / z`,
+as printed by `#eval`; pair trees of this kind are what the `ptree` stream compares with pest's) represents the
+corresponding AST, with no positional parameters in play -/
+example : RBlock [] (.cons (.for "x".toList "a b".toList
+        (.cons (.ite (.cons "t".toList (.cons .brk .nil) .nil) (.cons (.cmd "c $x".toList) .nil)) .nil))
+      (.cons (.cmd "z".toList) .nil)) exTree := by
+  refine .cons (.for (by decide) (by decide) (by decide) (.cons (.ite (by decide) (.arm (Or.inl rfl) (by decide) (by decide)
+    (.cons (.brk (by decide)) .nil) (.els (.cons (.cmd (by decide) ⟨by decide, by decide, by decide, by decide⟩) .nil)))) .nil))
+    (.cons (.cmd (by decide) ⟨by decide, by decide, by decide, by decide⟩) .nil)
 
 end Cicada.C14
